@@ -25,3 +25,14 @@ package nano
 //@   ensures #state n.current == result
 //@   ensures #clock old(n.current) < 9223372036854775807 ==> result >= ts
 //@   modifies n.current
+//
+// GenID: the same guarantees for whatever the wall clock reads (time.Now().UnixNano() is an arbitrary int64)
+//@ func UnixNanoID.GenID
+//@   requires !held(n.Mutex)
+//@   ensures #increasing cs(n.current) < 9223372036854775807 ==> result > cs(n.current)
+//@   ensures #state n.current == result
+//@   modifies n.current
+//@ func UnixNanoNoLockID.GenID
+//@   ensures #increasing old(n.current) < 9223372036854775807 ==> result > old(n.current)
+//@   ensures #state n.current == result
+//@   modifies n.current
